@@ -8,6 +8,7 @@
 #include <etl/_tuple/tuple_element.hpp>
 #include <etl/_tuple/tuple_size.hpp>
 #include <etl/_type_traits/integral_constant.hpp>
+#include <etl/_type_traits/is_floating_point.hpp>
 #include <etl/_utility/move.hpp>
 
 namespace etl {
@@ -241,16 +242,29 @@ template <typename T>
 template <typename X>
 constexpr auto complex<T>::operator/=(complex<X> const& val) -> complex<T>&
 {
-    auto const norm = [](auto const& c) {
-        auto const x = c.real();
-        auto const y = c.imag();
-        return static_cast<T>(x * x + y * y);
-    };
-
-    auto const r = static_cast<T>(_real * val.real() + _imag * val.imag());
-    auto const n = norm(val);
-    _imag        = (_imag * val.real() - _real * val.imag()) / n;
-    _real        = r / n;
+    if constexpr (is_floating_point_v<T>) {
+        // Smith's algorithm: scale by the larger part of the divisor so that |val|^2 is never formed
+        auto const c = static_cast<T>(val.real());
+        auto const d = static_cast<T>(val.imag());
+        auto const a = _real;
+        auto const b = _imag;
+        if ((c < 0 ? -c : c) >= (d < 0 ? -d : d)) {
+            auto const r   = d / c;
+            auto const den = c + d * r;
+            _real          = (a + b * r) / den;
+            _imag          = (b - a * r) / den;
+        } else {
+            auto const r   = c / d;
+            auto const den = c * r + d;
+            _real          = (a * r + b) / den;
+            _imag          = (b * r - a) / den;
+        }
+    } else {
+        auto const n = static_cast<T>(val.real() * val.real() + val.imag() * val.imag());
+        auto const r = static_cast<T>(_real * val.real() + _imag * val.imag());
+        _imag        = (_imag * val.real() - _real * val.imag()) / n;
+        _real        = r / n;
+    }
     return *this;
 }
 
